@@ -208,6 +208,10 @@ def _expected(case, obj, typ):
         for m in want["mans"]:
             m["epoch"] = dict(m["epoch"], scale=want["epoch"]["scale"])
     elif typ == "oem":
+        # interpolation settings: what the caller asked for last (the spec), not what the object happens to report
+        specs = list(case["obj"]["ephems"]) + ([case["obj"]["ephems"][-1]] if case["obj"].get("same_twice") else [])
+        for e, sp in zip(want["ephems"], specs):
+            e["method"], e["order"] = sp["method"], sp["order"]
         for e in want["ephems"]:
             for pt in e["points"]:
                 pt["epoch"] = dict(pt["epoch"], scale=e["points"][0]["epoch"]["scale"])
@@ -285,6 +289,8 @@ def collect(case):
     # ---- phase 1: dump (input untouched), load, compare with the original - once per encoding
     for fmt in FMTS:
         obj = _clone(G.build(spec), case.get("clone"))
+        if case.get("read_infos") and typ in ("opm", "omm"):
+            obj.infos.kep  # the caller looked at the orbit first (lazily built, cached helper objects)
         snap0 = E.snapshot(obj, typ)
         # what the message must carry is what the object had before it was cloned
         w = _expected(case, G.build(spec) if case.get("clone") else obj, typ)
@@ -370,6 +376,30 @@ def collect(case):
             for f, k, m in f2fields:
                 add(_kind(k, typ, f2), f"{fmt} -> decoded -> {f2} -> decoded differs from the first decoding: {m}",
                     fmt=f2, clause="redump")
+    # ---- phase 4: an object that was read, changed in place by the caller, and written again
+    if case.get("edit") and typ in ("opm", "oem") and "kvn" in decoded:
+        from beyond.io.ccsds import dumps
+
+        y = decoded[case["edit"]["from"]][0] if case["edit"]["from"] in decoded else decoded["kvn"][0]
+        targets = [y] if typ == "opm" else ([y] if not isinstance(y, (list, tuple)) else list(y))
+        try:
+            for tg in targets:
+                tg.frame = case["edit"]["frame"]
+                tg.form = case["edit"]["form"]
+                if typ == "opm":
+                    tg.name = "edited"
+                else:
+                    tg.name = "edited"
+            gy = E.describe(y, typ)
+            for f2 in FMTS:
+                gz = E.describe(loads(dumps(y, fmt=f2)), typ)
+                tol3 = _tol(typ, f2)
+                for f, k, m in E.diff(gy, gz, typ, tol3):
+                    add(f"edited:{k}", f"decoded from {case['edit']['from']}, moved to {case['edit']['frame']} / "
+                                       f"{case['edit']['form']} in place, written in {f2} and read: {m}", fmt=f2, clause="edit")
+        except Exception as exc:
+            add_exc(exc_violation("dump", f"decoded object changed in place then written", typ, "kvn", exc, spec,
+                                  loaded_source=True))
     return viols, dict(worst=worst[0], want=want)
 
 
@@ -395,6 +425,14 @@ def classes(case):
     c = [f"via:{case.get('via', 'arg')}", f"clone:{case.get('clone')}", f"eop:{'real' if G.REAL_EOP else 'none'}"]
     if _mixed(spec):
         c.append("mixed-time-scale-labels")
+    if case.get("edit"):
+        c.append("decoded-edited-rewritten")
+    if spec.get("pre"):
+        c.append("before-dump:" + spec["pre"])
+    if spec.get("same_twice"):
+        c.append("same-ephem-twice")
+    if any(m.get("dt_us") == 0 for m in spec.get("mans", ())):
+        c.append("burn-at-epoch")
     for ep in [spec.get("epoch")] + [e.get("epoch") for e in spec.get("ephems", ())]:
         if ep and ep.get("kind", "uniform") not in ("uniform", "second"):
             c.append("date:" + ep["kind"])
@@ -468,8 +506,17 @@ def case_of(draw, objects, facet):
     if obj["type"] in ("opm", "oem", "omm") and draw(st.sampled_from(range(6))) == 0:
         kw = dict(name=draw(G.opt(G.text(10), 2)), cospar_id=draw(G.opt(G.cospar, 2)),
                   originator=draw(G.opt(G.text(10), 2)))
-    return dict(facet=facet, obj=obj, via=draw(st.sampled_from(["arg", "arg", "arg", "config"])), kw=kw,
-                clone=draw(st.sampled_from([None, None, None, "copy()", "deepcopy", "pickle"])))
+    case = dict(facet=facet, obj=obj, via=draw(st.sampled_from(["arg", "arg", "arg", "config"])), kw=kw,
+                clone=draw(st.sampled_from([None, None, None, "copy()", "deepcopy", "pickle"])),
+                read_infos=draw(st.sampled_from([False, False, True])))
+    if obj["type"] in ("opm", "oem") and draw(st.sampled_from(range(4))) == 0:
+        # the decoded object is moved to another frame / form in place by the caller and written again
+        earth = all(f in G.FRAMES for f in ([obj["state"]["frame"]] if obj["type"] == "opm" else
+                                            [e["frame"] for e in obj["ephems"]]))
+        if earth:
+            case["edit"] = {"from": draw(st.sampled_from(FMTS)), "frame": draw(st.sampled_from(["EME2000", "MOD", "TOD", "CIRF"])),
+                            "form": draw(st.sampled_from(["cartesian", "keplerian", "spherical"]))}
+    return case
 
 
 def _real(shard):
